@@ -69,14 +69,66 @@ def run_check(prop, env):
     return r.returncode, keys, r.stdout
 
 
+def one(job):
+    d, props, official, reg = job
+    import multiprocessing
+    tag = multiprocessing.current_process().name.replace("ForkPoolWorker-", "w").replace("MainProcess", "w0")
+    scratch, out = f"/tmp/vseed_{tag}_repo", f"/tmp/vseed_{tag}_out"
+    sid = os.path.basename(d)
+    own = sid.split("-")[0]
+    todo = reg if props == "all" else ([own] if props == "own" else props.split(","))
+    todo = [p for p in todo if p in reg]
+    patch = os.path.join(d, "patch.diff")
+    env = dict(os.environ)
+    if official:
+        st = subprocess.run(["git", "-C", "/repo", "status", "--porcelain"], stdout=subprocess.PIPE, text=True).stdout.strip()
+        if st:
+            print("refusing: /repo is dirty", flush=True)
+            return sid, {"error": "/repo dirty"}
+        a = subprocess.run(["git", "-C", "/repo", "apply", patch])
+        env["VERIF_OUT_DIR"] = out
+    else:
+        if os.path.exists(scratch):
+            shutil.rmtree(scratch)
+        os.makedirs(scratch)
+        for f in ("Cargo.toml", "Cargo.lock", "build.rs"):
+            shutil.copy(os.path.join("/repo", f), scratch)
+        shutil.copytree("/repo/src", os.path.join(scratch, "src"))
+        a = subprocess.run(["patch", "-p1", "-s", "-d", scratch, "-i", patch])
+        env.update(VERIF_REPO=scratch, VERIF_OUT_DIR=out, VERIF_WORK_DIR=f"/tmp/vseed_{tag}_work", VERIF_CACHE_DIR=f"/tmp/vseed_{tag}_cache")
+    if a.returncode != 0:
+        print(f"{sid}: patch does not apply", flush=True)
+        if official:
+            subprocess.run(["git", "-C", "/repo", "checkout", "--", "."])
+        return sid, {"error": "patch does not apply"}
+    fired = {}
+    try:
+        for p in todo:
+            rc, keys, txt = run_check(p, env)
+            if rc == 1:
+                fired[p] = keys
+            elif rc != 0:
+                fired[p] = [f"rc={rc}: " + txt[-300:]]
+    finally:
+        if official:
+            subprocess.run(["git", "-C", "/repo", "checkout", "--", "."])
+        else:
+            shutil.rmtree(scratch, ignore_errors=True)
+    caught = own in fired
+    print(f"{sid:10s} own={'CAUGHT' if caught else ('n/a' if own not in reg else 'MISSED')}  fired: " + "; ".join(f"{p}[{len(k)}] {k[0][:90] if k else ''}" for p, k in fired.items()), flush=True)
+    return sid, {"property": own, "caught_by_own_check": caught, "fired": fired, "checked": todo, "mode": "official" if official else "scratch"}
+
+
 def main():
+    import multiprocessing
     args = sys.argv[1:]
     if not args or args[0] == "import":
         return do_import()
     pat = ""
     props = "all"
     official = "--official" in args
-    rest = [a for a in args[1:] if a != "--official"]
+    jobs = next((int(a.split("=")[1]) for a in args if a.startswith("--jobs=")), 1)
+    rest = [a for a in args[1:] if a != "--official" and not a.startswith("--jobs=")]
     i = 0
     while i < len(rest):
         if rest[i] == "--props":
@@ -85,58 +137,24 @@ def main():
         else:
             pat = rest[i]
             i += 1
+    if official:
+        jobs = 1  # the patch is applied to /repo itself
     reg = registered()
-    results = {}
-    resp = os.path.join(V, "selftest", "seeded_results.json")
-    if os.path.exists(resp):
-        results = json.load(open(resp))
-    for d in sorted(glob.glob(os.path.join(SEEDED, "*"))):
-        sid = os.path.basename(d)
-        if pat and pat not in sid:
-            continue
-        own = sid.split("-")[0]
-        todo = reg if props == "all" else ([own] if props == "own" else props.split(","))
-        todo = [p for p in todo if p in reg]
-        patch = os.path.join(d, "patch.diff")
-        env = dict(os.environ)
-        if official:
-            st = subprocess.run(["git", "-C", "/repo", "status", "--porcelain"], stdout=subprocess.PIPE, text=True).stdout.strip()
-            if st:
-                print("refusing: /repo is dirty")
-                return 2
-            a = subprocess.run(["git", "-C", "/repo", "apply", patch])
-            env["VERIF_OUT_DIR"] = OUT
-        else:
-            fresh()
-            a = subprocess.run(["git", "apply", "--directory", SCRATCH.lstrip("/"), "--unsafe-paths", patch], cwd="/")
-            if a.returncode != 0:
-                a = subprocess.run(["patch", "-p1", "-s", "-d", SCRATCH, "-i", patch])
-            env["VERIF_REPO"] = SCRATCH
-            env["VERIF_OUT_DIR"] = OUT
-            env["VERIF_WORK_DIR"] = "/tmp/vseed_work"
-            env["VERIF_CACHE_DIR"] = "/tmp/vseed_cache"
-        if a.returncode != 0:
-            print(f"{sid}: patch does not apply")
-            results[sid] = {"error": "patch does not apply"}
-            continue
-        fired = {}
-        try:
-            for p in todo:
-                rc, keys, out = run_check(p, env)
-                if rc == 1:
-                    fired[p] = keys
-                elif rc != 0:
-                    fired[p] = [f"rc={rc}: " + out[-300:]]
-        finally:
-            if official:
-                subprocess.run(["git", "-C", "/repo", "checkout", "--", "."])
-        caught = own in fired
-        results[sid] = {"property": own, "caught_by_own_check": caught, "fired": fired, "checked": todo, "mode": "official" if official else "scratch"}
-        print(f"{sid:10s} own={'CAUGHT' if caught else ('n/a' if own not in reg else 'MISSED')}  fired: " + "; ".join(f"{p}[{len(k)}] {k[0][:90] if k else ''}" for p, k in fired.items()))
-        json.dump(results, open(resp, "w"), indent=1, sort_keys=True)
-    for pth in (SCRATCH, OUT):
-        if os.path.exists(pth):
-            shutil.rmtree(pth)
+    resp = os.path.join(V, "selftest", "seeded_results_official.json" if official else "seeded_results.json")
+    results = json.load(open(resp)) if os.path.exists(resp) else {}
+    todo = [(d, props, official, reg) for d in sorted(glob.glob(os.path.join(SEEDED, "*"))) if os.path.isdir(d) and (not pat or pat in os.path.basename(d))]
+    if jobs > 1:
+        with multiprocessing.Pool(jobs) as pool:
+            for sid, r in pool.imap_unordered(one, todo):
+                results[sid] = r
+                json.dump(results, open(resp, "w"), indent=1, sort_keys=True)
+    else:
+        for j in todo:
+            sid, r = one(j)
+            results[sid] = r
+            json.dump(results, open(resp, "w"), indent=1, sort_keys=True)
+    n_own = sum(1 for r in results.values() if r.get("caught_by_own_check"))
+    print(f"{len(results)} seeds in {os.path.basename(resp)}: {n_own} reported by the check of their own property")
     return 0
 
 
